@@ -105,26 +105,36 @@ def r11_1(prog, rep):
     ok = len(rets) == 1 and unparse(rets[0].value) == "VarLookupDict(self._namespaces)"
     obl(rep, ns, rets[0] if rets else ns.node, "R11.1", ok, "Environment.namespace looks up in self._namespaces, order unchanged",
         unparse(rets[0].value) if rets else "")
-    # design_matrices: capture then with_outer_namespace(extra_namespace)
+    # design_matrices: the environment handed to the design is capture(env, reference=1) extended by extra_namespace (or {})
     dm = prog.fn("matrices.design_matrices")
-    c = cfg_of(dm)
-    capc = [x for x in calls_in(dm.node) if dotted(x.func) == "Environment.capture"]
-    wonc = [x for x in calls_in(dm.node) if isinstance(x.func, ast.Attribute) and x.func.attr == "with_outer_namespace"]
-    ok = len(capc) == 1 and len(wonc) == 1
+    from . import C09
+    from .. import symexec as SX
+    envs = set()
+    try:
+        O = C09.policy_outcomes(prog, dm)
+        for e in O["pass"]["ex"].effects:
+            if e[0] == "watch" and len(e[1][1]) >= 3:
+                envs.add(SX.render(e[1][1][2]))
+    except AnalysisError as e:
+        rep.defer(f"R11.1: {e}")
+    ok = len(envs) == 1
+    shown = next(iter(envs)) if envs else ""
     if ok:
-        ok = c.dominates(c.node_of(capc[0]), c.node_of(wonc[0])) and unparse(wonc[0].args[0]) == "extra_namespace" \
-            and unparse(wonc[0].func.value) == "env"
-        # both results are bound to `env`
-        for call in (capc[0], wonc[0]):
-            st = [s for s in walk_local(dm.node) if isinstance(s, ast.Assign) and s.value is call]
-            ok = ok and len(st) == 1 and unparse(st[0].targets[0]) == "env"
-    obl(rep, dm, wonc[0] if wonc else dm.node, "R11.1", ok,
+        try:
+            v = ast.parse(shown, mode="eval").body
+        except SyntaxError:
+            v = None
+        ok = isinstance(v, ast.Call) and isinstance(v.func, ast.Attribute) and v.func.attr == "with_outer_namespace" and len(v.args) == 1 \
+            and isinstance(v.func.value, ast.Call) and dotted(v.func.value.func) == "Environment.capture"
+        if ok:
+            extra = unparse(v.args[0])
+            p_extra = dm.params[4] if len(dm.params) > 4 else "extra_namespace"
+            ok = extra in (f"{p_extra} or {{}}", p_extra, f"{{}} if {p_extra} is None else {p_extra}", f"{p_extra} if {p_extra} is not None else {{}}",
+                           f"{{}} if not {p_extra} else {p_extra}", f"{p_extra} if {p_extra} else {{}}")
+    obl(rep, dm, dm.node, "R11.1", ok,
         "design_matrices: env = capture(...); env = env.with_outer_namespace(extra_namespace) => [locals, globals, extra]",
-        "", "design_matrices does not build [locals, globals, extra_namespace]")
-    # extra_namespace normalisation keeps user's dict or {}
-    norm = [s for s in walk_local(dm.node) if isinstance(s, ast.Assign) and unparse(s.targets[0]) == "extra_namespace"]
-    ok = all(unparse(s.value) in ("extra_namespace or {}", "{} if extra_namespace is None else extra_namespace") for s in norm)
-    obl(rep, dm, norm[0] if norm else dm.node, "R11.1", ok, "extra_namespace is only defaulted to {} when absent", nontrivial=False)
+        shown[:120], f"the design is built with the environment `{shown[:160]}`: not [locals, globals, extra_namespace]")
+    obl(rep, dm, dm.node, "R11.1", ok, "extra_namespace is only defaulted to {} when absent", nontrivial=False)
 
 
 def r11_2(prog, rep):
@@ -184,7 +194,11 @@ def r11_3(prog, rep):
     for name in ("__contains__", "get"):
         f = prog.fn(f"environment.VarLookupDict.{name}")
         sub = [n for n in ast.walk(f.node) if isinstance(n, ast.Subscript) and unparse(n.value) == "self"]
-        obl(rep, f, f.node, "R11.3", len(sub) == 1, f"VarLookupDict.{name} delegates to __getitem__", nontrivial=False)
+        via_get = [x for x in calls_in(f.node) if unparse(x.func) == "self.get"] if name == "__contains__" else []
+        # no second lookup path: the method never touches the scope list itself
+        own = [n for n in ast.walk(f.node) if isinstance(n, ast.Attribute) and n.attr == "_dicts"]
+        obl(rep, f, f.node, "R11.3", (len(sub) == 1 or len(via_get) == 1) and not own,
+            f"VarLookupDict.{name} delegates to __getitem__" + (" (possibly through get)" if name == "__contains__" else ""), nontrivial=False)
 
 
 # ---- tiny symbolic evaluator for get_function_from_module -------------------------------
@@ -212,6 +226,14 @@ class _Sym:
                     return ("const", len(v[1]))
             if d == "getattr" and len(n.args) == 2:
                 return ("getattr", self.val(n.args[0]), self.val(n.args[1]))
+            if d in ("functools.reduce", "reduce") and len(n.args) == 3 and isinstance(n.args[0], ast.Name) and n.args[0].id == "getattr":
+                # left fold of getattr over a list of name parts, starting from the looked-up root
+                seq = self.val(n.args[1])
+                acc = self.val(n.args[2])
+                if seq[0] == "list":
+                    for item in seq[1]:
+                        acc = ("getattr", acc, item)
+                    return acc
             if d == "getattr" and len(n.args) == 3:
                 return ("getattr-with-default", self.val(n.args[0]), self.val(n.args[1]))
             raise AnalysisError(f"get_function_from_module: unmodelled call `{unparse(n)}`")
